@@ -147,8 +147,8 @@ pub fn all_opcode_numbers() -> Vec<Mutant> {
         .collect()
 }
 
-/// U-hostile: every word string of length <= `max_len` after a valid header over an alphabet of framing shortcuts
-pub fn hostile(max_len: usize, with_trailing_bytes: bool) -> Vec<Mutant> {
+/// the U-hostile alphabet: first words with every framing shortcut visible in parser.rs / decoder.rs, plus payload words
+pub fn hostile_alphabet() -> Vec<u32> {
     let g = golden();
     let op = |n: &str| g.opcode(n) as u32;
     let mut alpha: Vec<u32> = vec![];
@@ -158,38 +158,41 @@ pub fn hostile(max_len: usize, with_trailing_bytes: bool) -> Vec<Mutant> {
         }
     }
     alpha.retain(|w| {
-        // keep the alphabet near the 24 words of the design: drop a few redundant (wc, opcode) pairs
         let wc = w >> 16;
         let o = w & 0xFFFF;
         !(o == op("Nop") && wc > 2) && !(o == op("TypeInt") && wc < 3)
     });
     alpha.extend([0u32, 1, 43, 52, 251, 64, 0x4141_4141, 0x0000_0041, 0xFFFF_FFFF, (0xFFFF << 16) | op("String"), op("Nop")]);
-    let mut out = vec![];
+    alpha
+}
+
+/// U-hostile: every word string of length 1..=`max_len` over the hostile alphabet that starts with `prefix`
+/// (so callers can parallelise over prefixes without materialising the whole universe); `f` is called per binary.
+pub fn hostile_each(prefix: &[u32], max_len: usize, with_trailing_bytes: bool, f: &mut dyn FnMut(&Mutant)) {
+    let alpha = hostile_alphabet();
     let hdr = model::header(0x0001_0600, 0, 8);
-    let mut layer: Vec<Vec<u32>> = vec![vec![]];
-    for _ in 0..max_len {
-        let mut next = vec![];
-        for s in &layer {
-            for &a in &alpha {
-                let mut t = s.clone();
-                t.push(a);
-                next.push(t);
-            }
-        }
-        for s in &next {
-            let mut w = hdr.clone();
-            w.extend(s);
+    fn rec(cur: &mut Vec<u32>, alpha: &[u32], hdr: &[u32], max_len: usize, trailing: bool, f: &mut dyn FnMut(&Mutant)) {
+        if !cur.is_empty() {
+            let mut w = hdr.to_vec();
+            w.extend(cur.iter());
             let b = model::words_to_bytes(&w);
-            out.push(Mutant { what: format!("hostile{:x?}", s), bytes: b.clone() });
-            if with_trailing_bytes && s.len() <= 2 {
+            f(&Mutant { what: format!("hostile{:x?}", cur), bytes: b.clone() });
+            if trailing && cur.len() <= 2 {
                 for extra in 1..=3 {
                     let mut b2 = b.clone();
                     b2.extend(std::iter::repeat(0x41).take(extra));
-                    out.push(Mutant { what: format!("hostile{:x?}+{}B", s, extra), bytes: b2 });
+                    f(&Mutant { what: format!("hostile{:x?}+{}B", cur, extra), bytes: b2 });
                 }
             }
         }
-        layer = next;
+        if cur.len() < max_len {
+            for &a in alpha {
+                cur.push(a);
+                rec(cur, alpha, hdr, max_len, trailing, f);
+                cur.pop();
+            }
+        }
     }
-    out
+    let mut cur = prefix.to_vec();
+    rec(&mut cur, &alpha, &hdr, max_len, with_trailing_bytes, f);
 }
